@@ -20,36 +20,45 @@ package xmlenc
 //@ go func registered(alg string) bool { _, ok := decrypters[alg]; return ok }
 
 //@ contract stripPadding
-//@ ensures[C10,C11] gate: (err == nil) == (len(buf) >= 1 && int(buf[len(buf)-1]) >= 1 && int(buf[len(buf)-1]) <= len(buf))
-//@ ensures[C10,C11] length: err == nil ==> len(result) == len(buf) - int(buf[len(buf)-1])
-//@ ensures[C10,C11] prefix: err == nil ==> forall(0, len(result), func(k int) bool { return result[k] == buf[k] })
+//@ ensures[C10,C11,C08] gate: (err == nil) == (len(buf) >= 1 && int(buf[len(buf)-1]) >= 1 && int(buf[len(buf)-1]) <= len(buf))
+//@ ensures[C10,C11,C08] length: err == nil ==> len(result) == len(buf) - int(buf[len(buf)-1])
+//@ ensures[C10,C11,C08] prefix: err == nil ==> forall(0, len(result), func(k int) bool { return result[k] == buf[k] })
 //@ ensures[C11] nilonerr: err != nil ==> result == nil
 
 //@ contract appendPadding
 //@ requires[cfg] bs: blockSize > 0 && blockSize <= 255
-//@ ensures[C10] length: len(result) == len(buf) + (blockSize - len(buf)%blockSize)
-//@ ensures[C10] aligned: (blockSize == 8 || blockSize == 16) ==> len(result)%blockSize == 0
-//@ ensures[C10] prefix: forall(0, len(buf), func(k int) bool { return result[k] == buf[k] })
-//@ ensures[C10] last: int(result[len(result)-1]) == blockSize - len(buf)%blockSize
+//@ ensures[C10,C08] length: len(result) == len(buf) + (blockSize - len(buf)%blockSize)
+//@ ensures[C10,C08] aligned: (blockSize == 8 || blockSize == 16) ==> len(result)%blockSize == 0
+//@ ensures[C10,C08] prefix: forall(0, len(buf), func(k int) bool { return result[k] == buf[k] })
+//@ ensures[C10,C08] last: int(result[len(result)-1]) == blockSize - len(buf)%blockSize
 
 //@ -- the padding round trip as a lemma over the two contracts above
 //@ go func lemmaPadRoundTrip(p []byte, bs int) ([]byte, error) { return stripPadding(appendPadding(p, bs)) }
 //@ contract lemmaPadRoundTrip
 //@ requires[cfg] bs: bs > 0 && bs <= 255
-//@ ensures[C10] ok: err == nil
-//@ ensures[C10] length: len(result) == len(p)
-//@ ensures[C10] same: forall(0, len(p), func(k int) bool { return result[k] == p[k] })
+//@ ensures[C10,C08] ok: err == nil
+//@ ensures[C10,C08] length: len(result) == len(p)
+//@ ensures[C10,C08] same: forall(0, len(p), func(k int) bool { return result[k] == p[k] })
 
 //@ contract Decrypt
+//@ -- interoperability: etree matches a prefixed path segment against the literal prefix, and a peer chooses its own
+//@ -- prefixes - every lookup in a received element is by local name
+//@ assert@call[C10,C08] FindElement #each (el *etree.Element, path string) lookup_by_local_name: !strings.Contains(path, ":")
 //@ requires el: ciphertextEl != nil
 //@ -- owed by every caller in the repository: a key that claims to be an RSA private key is one (a typed nil pointer
 //@ -- passes the decrypters' type assertion and is dereferenced: "wrong type is rejected" must not become a panic)
 //@ requires key: rsaKeyOK(key)
 
 //@ contract getCiphertext
+//@ -- interoperability: etree matches a prefixed path segment against the literal prefix, and a peer chooses its own
+//@ -- prefixes - every lookup in a received element is by local name
+//@ assert@call[C10,C08] FindElement #each (el *etree.Element, path string) lookup_by_local_name: !strings.Contains(path, ":")
 //@ requires el: encryptedKey != nil
 
 //@ contract validateRSAKeyIfPresent
+//@ -- interoperability: etree matches a prefixed path segment against the literal prefix, and a peer chooses its own
+//@ -- prefixes - every lookup in a received element is by local name
+//@ assert@call[C10,C08] FindElement #each (el *etree.Element, path string) lookup_by_local_name: !strings.Contains(path, ":")
 //@ requires el: encryptedKey != nil
 //@ requires[cfg] key: rsaKeyOK(key)
 //@ ensures[C11] keytype: err == nil ==> result != nil
@@ -73,26 +82,32 @@ package xmlenc
 //@ -- themselves (a key slice passed in is used again by the caller for the next message)
 //@ ghost func allocatedHereBytes(b []byte) bool
 //@ contract (CBC).Decrypt
+//@ -- interoperability: etree matches a prefixed path segment against the literal prefix, and a peer chooses its own
+//@ -- prefixes - every lookup in a received element is by local name
+//@ assert@call[C10,C08] FindElement #each (el *etree.Element, path string) lookup_by_local_name: !strings.Contains(path, ":")
 //@ requires el: ciphertextEl != nil
-//@ assert@call[C10,C11] clear #each (b []byte) wipes_only_its_own_memory: allocatedHereBytes(b)
+//@ assert@call[C10,C11,C08] clear #each (b []byte) wipes_only_its_own_memory: allocatedHereBytes(b)
 //@ requires[cfg] cipher: e.cipher != nil
 //@ requires[cfg] key: rsaKeyOK(key)
 //@ -- framing, the mirror image of Encrypt: a key of exactly the cipher's size keys the block cipher; the first block of
 //@ -- the cipher value is the IV and everything after it is decrypted as a whole; the result is that plaintext with the
 //@ -- xmlenc padding stripped (with the padding lemma and CBC decrypt-after-encrypt = identity this is the round trip)
-//@ assert@call[C10] field:xmlenc.CBC.cipher #1 (fn func([]byte) (cipher.Block, error), k []byte) uses keyBuf []byte keys_cipher_with_given_key:
+//@ assert@call[C10,C08] field:xmlenc.CBC.cipher #1 (fn func([]byte) (cipher.Block, error), k []byte) uses keyBuf []byte keys_cipher_with_given_key:
 //@    sameSlice(k, keyBuf) && len(k) == e.keySize
-//@ assert@call[C10] NewCBCDecrypter #1 (b cipher.Block, ivArg []byte) uses block cipher.Block, iv []byte, ciphertext []byte first_block_is_iv:
+//@ assert@call[C10,C08] NewCBCDecrypter #1 (b cipher.Block, ivArg []byte) uses block cipher.Block, iv []byte, ciphertext []byte first_block_is_iv:
 //@    b == block && sameSlice(ivArg, iv) && len(iv) == b.BlockSize() && cap(iv) == cap(ciphertext)+len(iv)
-//@ assert@call[C10] CryptBlocks #1 (mode cipher.BlockMode, dst []byte, src []byte) uses ciphertext []byte, plaintext []byte decrypts_all_after_iv:
+//@ assert@call[C10,C08] CryptBlocks #1 (mode cipher.BlockMode, dst []byte, src []byte) uses ciphertext []byte, plaintext []byte decrypts_all_after_iv:
 //@    sameSlice(src, ciphertext) && sameSlice(dst, plaintext) && len(dst) == len(src)
-//@ assert@call[C10] stripPadding #1 (buf []byte) uses plaintext []byte strips_padding_of_plaintext: sameSlice(buf, plaintext)
+//@ assert@call[C10,C08] stripPadding #1 (buf []byte) uses plaintext []byte strips_padding_of_plaintext: sameSlice(buf, plaintext)
 //@ -- the other direction: once key, cipher and cipher value are in hand, the only cipher values turned away before
 //@ -- decryption are those that are not IV + whole blocks OF THIS CIPHER (8 bytes for 3DES, 16 for AES)
-//@ assert@return[C10] #each (out []byte, rerr error) uses ct=ciphertext? []byte, ctSeen=reached:ciphertext bool, blk=block? cipher.Block, blkSeen=reached:block bool, modeSeen=reached:mode bool, lastErr=err? error rejects_only_broken_framing:
+//@ assert@return[C10,C08] #each (out []byte, rerr error) uses ct=ciphertext? []byte, ctSeen=reached:ciphertext bool, blk=block? cipher.Block, blkSeen=reached:block bool, modeSeen=reached:mode bool, lastErr=err? error rejects_only_broken_framing:
 //@    rerr != nil && ctSeen && blkSeen && !modeSeen && lastErr == nil ==> len(ct) < blk.BlockSize() || len(ct) % blk.BlockSize() != 0
 
 //@ contract (GCM).Decrypt
+//@ -- interoperability: etree matches a prefixed path segment against the literal prefix, and a peer chooses its own
+//@ -- prefixes - every lookup in a received element is by local name
+//@ assert@call[C10,C08] FindElement #each (el *etree.Element, path string) lookup_by_local_name: !strings.Contains(path, ":")
 //@ requires el: ciphertextEl != nil
 //@ assert@call[C10,C11] clear #each (b []byte) wipes_only_its_own_memory: allocatedHereBytes(b)
 //@ requires[cfg] cipher: e.cipher != nil
@@ -109,14 +124,17 @@ package xmlenc
 //@    e2 == nil && AEADOpened(aesgcm, nonce, text, out)
 
 //@ contract (RSA).Decrypt
+//@ -- interoperability: etree matches a prefixed path segment against the literal prefix, and a peer chooses its own
+//@ -- prefixes - every lookup in a received element is by local name
+//@ assert@call[C10,C08] FindElement #each (el *etree.Element, path string) lookup_by_local_name: !strings.Contains(path, ":")
 //@ requires el: ciphertextEl != nil
 //@ requires[cfg] key: rsaKeyOK(key)
 //@ requires[cfg] fn: e.keyDecrypter != nil
-//@ assert@call[C10,C11] field:xmlenc.RSA.keyDecrypter #1 (fn func(RSA, *rsa.PrivateKey, []byte) ([]byte, error), ea RSA, ka *rsa.PrivateKey) args_nonnil:
+//@ assert@call[C10,C11,C08] field:xmlenc.RSA.keyDecrypter #1 (fn func(RSA, *rsa.PrivateKey, []byte) ([]byte, error), ea RSA, ka *rsa.PrivateKey) args_nonnil:
 //@    ea.DigestMethod != nil && ka != nil
-//@ assert@call[C10] field:xmlenc.RSA.keyDecrypter #1 (fn func(RSA, *rsa.PrivateKey, []byte) ([]byte, error), ea RSA) digest_absent:
+//@ assert@call[C10,C08] field:xmlenc.RSA.keyDecrypter #1 (fn func(RSA, *rsa.PrivateKey, []byte) ([]byte, error), ea RSA) digest_absent:
 //@    ciphertextEl.FindElement("./EncryptionMethod/DigestMethod") == nil ==> ea.DigestMethod == DigestMethod(SHA1)
-//@ assert@call[C10] field:xmlenc.RSA.keyDecrypter #1 (fn func(RSA, *rsa.PrivateKey, []byte) ([]byte, error), ea RSA) digest_named:
+//@ assert@call[C10,C08] field:xmlenc.RSA.keyDecrypter #1 (fn func(RSA, *rsa.PrivateKey, []byte) ([]byte, error), ea RSA) digest_named:
 //@    ciphertextEl.FindElement("./EncryptionMethod/DigestMethod") != nil ==>
 //@    ea.DigestMethod == digestMethods[ciphertextEl.FindElement("./EncryptionMethod/DigestMethod").SelectAttrValue("Algorithm", "")]
 
